@@ -2,11 +2,14 @@
 //! properties: C01
 //! note: CommitmentTransaction output construction (chan_utils.rs): HTLC outputs are built one per non-dust HTLC with the HTLC's own amount, sorted in BOLT-3 order (value, then script, then CLTV expiry) while each HTLC's data stays paired with its own output, and no HTLC is lost or duplicated by the sort (the library's insertion sort, verified as written); the non-HTLC outputs are exactly the non-zero balances and the anchors BOLT 3 prescribes, with a shared anchor never taking more than what the trimmed amounts leave
 //! trusted: env: Amount(u64), ScriptBuf(u64), PaymentHash(u64) skeletons whose Ord is the order of the wrapped number (bitcoin::Amount orders by value; scripts and hashes are opaque, totally ordered); TxOut / HTLCOutputInCommitment field skeletons; get_htlc_redeemscript(..).to_p2wsh() is an uninterpreted function of (htlc, channel type, keys); TxCreationKeys and ChannelTypeFeatures opaque
-//! trusted: R5: insert_non_htlc_outputs takes an `FnMut(TxOut)` callback (a closure that inserts the output at its sorted position); the parameter is replaced by `out: &mut Vec<TxOut>` and each `insert_non_htlc_output(x)` by `out.push(x)`: the contract is about which outputs are handed over, with which value and script, in which order; the sorted insertion itself (binary_search_by + the index fix-up closure of build_outputs_and_htlcs) is dropped and not claimed; env: DirectedChannelTransactionParameters / ChannelPublicKeys / TxCreationKeys are field skeletons with accessor stubs, scripts and hashes are uninterpreted functions of the keys, Amount has bitcoin::Amount's ordering and a checked `-`; assume_specification for core::cmp::min / max
+//! trusted: R5: insert_non_htlc_outputs takes an `FnMut(TxOut)` callback (a closure that inserts the output at its sorted position); the parameter is replaced by `out: &mut Vec<TxOut>` and each `insert_non_htlc_output(x)` by `out.push(x)`: the contract is about which outputs are handed over, with which value and script, in which order; the position the closure inserts at (binary_search_by) is dropped and not claimed; env: DirectedChannelTransactionParameters / ChannelPublicKeys / TxCreationKeys are field skeletons with accessor stubs, scripts and hashes are uninterpreted functions of the keys, Amount has bitcoin::Amount's ordering and a checked `-`; assume_specification for core::cmp::min / max
 //! assume: insert_non_htlc_outputs: with a shared (P2A) anchor the channel value covers the HTLC sum and both balances (the subtraction panics otherwise; that the builder never hands over more than the funding output holds is proved in u01e)
+//! trusted: R6 (adapter chain): build_outputs_and_htlcs fixes up the HTLC output indices after each insertion with `nondust_htlcs.iter_mut()[.rev()].map_while(|htlc| { let i = ..; (C).then(|| i) }).for_each(|i| F)`; the unit captures the direction tokens, the condition C and the effect F verbatim and places them in the loop that is the definition of that chain (visit the elements in that direction, apply F while C holds, stop at the first element where C fails); the loop skeleton, its invariants and the copy-out / write-back of the element's index are the unit's, the direction, C and F are the source's
+//! assume: fix-up: the HTLC output indices are strictly ascending with the HTLC order (they were initialised to the positions in the sorted list) and below 0xffff_0000
 //! trusted: assume_specification for <[T]>::swap (std: exchanges the two elements), Ordering::then and Ordering::is_gt (std definitions), Vec::with_capacity is vstd's
 //! trusted: R6: `for htlc in nondust_htlcs { B }` over a `&Vec` becomes `for htlc in nondust_htlcs.iter() { B }` (IntoIterator for &Vec is iter()); R10: `&nondust_htlcs` where nondust_htlcs is already a `&mut Vec` is written `&*nondust_htlcs` (the deref coercion rustc inserts)
 use vstd::prelude::*;
+macro_rules! walk_is_reversed { () => { false }; (. rev ( )) => { true }; }
 verus! {
 use vstd::std_specs::cmp::*;
 use core::cmp::Ordering;
@@ -26,7 +29,7 @@ pub assume_specification [Ordering::then] (o: Ordering, p: Ordering) -> (r: Orde
 pub open spec fn ord_u64(a: u64, b: u64) -> Ordering { if a < b { Ordering::Less } else if a == b { Ordering::Equal } else { Ordering::Greater } }
 #[derive(Clone, Copy)] pub struct Amount(pub u64);
 pub struct ScriptBuf(pub u64);
-pub struct PaymentHash(pub u64);
+#[derive(Clone, Copy)] pub struct PaymentHash(pub u64);
 impl Amount { #[verifier::external_body] pub fn cmp(&self, o: &Amount) -> (r: Ordering) ensures r == ord_u64(self.0, o.0) { unimplemented!() }
     pub fn from_sat(s: u64) -> (r: Amount) ensures r.0 == s { Amount(s) }
     pub const ZERO: Amount = Amount(0); }
@@ -36,7 +39,7 @@ impl ScriptBuf { #[verifier::external_body] pub fn new_p2wpkh(h: &WPubkeyHash) -
 impl PaymentHash { #[verifier::external_body] pub fn cmp(&self, o: &PaymentHash) -> (r: Ordering) ensures r == ord_u64(self.0, o.0) { unimplemented!() } }
 pub uninterp spec fn p2wsh_of(s: u64) -> u64;
 pub struct TxOut { pub script_pubkey: ScriptBuf, pub value: Amount }
-pub struct HTLCOutputInCommitment { pub offered: bool, pub amount_msat: u64, pub cltv_expiry: u32, pub payment_hash: PaymentHash, pub transaction_output_index: Option<u32> }
+#[derive(Clone, Copy)] pub struct HTLCOutputInCommitment { pub offered: bool, pub amount_msat: u64, pub cltv_expiry: u32, pub payment_hash: PaymentHash, pub transaction_output_index: Option<u32> }
 impl HTLCOutputInCommitment {
 //@extract lightning/src/ln/chan_utils.rs :: impl HTLCOutputInCommitment :: fn to_bitcoin_amount
 //@rw R1
@@ -149,6 +152,15 @@ pub proof fn lemma_swap_multiset<A>(s: Seq<A>, a: int, b: int)
 pub open spec fn ok_at(txouts: Seq<TxOut>, htlcs: Seq<HTLCOutputInCommitment>, k: int) -> bool {
     !left_gt(txouts[k - 1], htlcs[k - 1], txouts[k], htlcs[k])
 }
+pub open spec fn indices_ascending(s: Seq<HTLCOutputInCommitment>) -> bool {
+    forall|a: int, b: int| 0 <= a < b < s.len() ==> (#[trigger] s[a]).transaction_output_index->Some_0 < (#[trigger] s[b]).transaction_output_index->Some_0
+}
+pub proof fn lemma_ascending(s: Seq<HTLCOutputInCommitment>, a: int, b: int) requires indices_ascending(s), 0 <= a <= b < s.len()
+    ensures s[a].transaction_output_index->Some_0 <= s[b].transaction_output_index->Some_0 {}
+pub open spec fn same_but_index(a: HTLCOutputInCommitment, b: HTLCOutputInCommitment) -> bool {
+    a.offered == b.offered && a.amount_msat == b.amount_msat && a.cltv_expiry == b.cltv_expiry && a.payment_hash == b.payment_hash }
+pub open spec fn shifted(i: u32, idx: usize) -> u32 { if i >= idx { (i + 1) as u32 } else { i } }
+pub open spec fn was_visited(k: int, visited: int, n: int, backwards: bool) -> bool { if backwards { k >= n - visited } else { k < visited } }
 pub struct CommitmentTransaction {}
 impl CommitmentTransaction {
 //@extract lightning/src/ln/chan_utils.rs :: impl CommitmentTransaction :: fn is_left_greater
@@ -268,6 +280,63 @@ impl CommitmentTransaction {
     cmp::min(Amount::from_sat(P2A_MAX_VALUE), trimmed_sum_sat)
 //@with
     cmp::max(Amount::from_sat(P2A_MAX_VALUE), trimmed_sum_sat)
+//@end
+//@extract lightning/src/ln/chan_utils.rs :: impl CommitmentTransaction :: fn build_outputs_and_htlcs
+//@slice R15
+    nondust_htlcs .iter_mut() $dir:any .map_while(|htlc| { let i = htlc.transaction_output_index.as_mut().unwrap(); ($cond:seq).then(|| i) }) .for_each(|i| $f:seq);
+//@with
+    fn shift_htlc_indices_after_insert(nondust_htlcs: &mut Vec<HTLCOutputInCommitment>, idx: usize) {
+        // R6: `v.iter_mut() D .map_while(|htlc| { let i = <index of htlc>; (C).then(|| i) }).for_each(|i| F)` is the loop that visits the
+        // elements in the direction D (`.rev()`: from the last one down; nothing: from the first one up), runs F on the index while C holds and
+        // stops at the first element for which C fails (definition of map_while)
+        let ghost old_v = nondust_htlcs@;
+        let n = nondust_htlcs.len();
+        let backwards: bool = walk_is_reversed!($dir);
+        let mut visited: usize = 0;
+        while visited < n
+            invariant
+                nondust_htlcs@.len() == n, old_v.len() == n, visited <= n, idx < 0xffff_0000, indices_ascending(old_v),
+                forall|k: int| 0 <= k < n ==> (#[trigger] old_v[k]).transaction_output_index is Some && old_v[k].transaction_output_index->Some_0 < 0xffff_0000,
+                forall|k: int| 0 <= k < n ==> (#[trigger] nondust_htlcs@[k]).transaction_output_index is Some,
+                forall|k: int| 0 <= k < n ==> same_but_index(#[trigger] nondust_htlcs@[k], old_v[k]),
+                // the elements already visited were all at or above idx and have been shifted; the others are untouched
+                forall|k: int| 0 <= k < n && was_visited(k, visited as int, n as int, backwards) ==> old_v[k].transaction_output_index->Some_0 >= idx && (#[trigger] nondust_htlcs@[k]).transaction_output_index->Some_0 == old_v[k].transaction_output_index->Some_0 + 1,
+                forall|k: int| 0 <= k < n && !was_visited(k, visited as int, n as int, backwards) ==> (#[trigger] nondust_htlcs@[k]).transaction_output_index == old_v[k].transaction_output_index,
+            ensures
+                nondust_htlcs@.len() == n,
+                forall|k: int| 0 <= k < n ==> same_but_index(#[trigger] nondust_htlcs@[k], old_v[k]),
+                forall|k: int| 0 <= k < n ==> (#[trigger] nondust_htlcs@[k]).transaction_output_index is Some,
+                backwards ==> forall|k: int| 0 <= k < n ==> (#[trigger] nondust_htlcs@[k]).transaction_output_index->Some_0 == shifted(old_v[k].transaction_output_index->Some_0, idx),
+            decreases n - visited
+        {
+            let pos: usize = if backwards { n - 1 - visited } else { visited };
+            let mut cur: u32 = nondust_htlcs[pos].transaction_output_index.unwrap();
+            let keep_going: bool;
+            {
+                let i = &mut cur;
+                if $cond { $f; keep_going = true; } else { keep_going = false; }
+            }
+            if !keep_going {
+                proof { if backwards { assert forall|k: int| 0 <= k <= pos implies old_v[k].transaction_output_index->Some_0 < idx by { lemma_ascending(old_v, k, pos as int); } } }
+                break;
+            }
+            let mut e = nondust_htlcs[pos];
+            e.transaction_output_index = Some(cur);
+            nondust_htlcs.set(pos, e);
+            visited = visited + 1;
+        }
+    }
+//@requires
+    idx < 0xffff_0000, indices_ascending(old(nondust_htlcs)@),
+    forall|k: int| 0 <= k < old(nondust_htlcs)@.len() ==> (#[trigger] old(nondust_htlcs)@[k]).transaction_output_index is Some && old(nondust_htlcs)@[k].transaction_output_index->Some_0 < 0xffff_0000,
+//@ensures P C01 after-a-non-htlc-output-is-inserted-every-htlc-whose-output-sat-at-or-above-the-insertion-point-names-the-next-index-and-every-other-htlc-keeps-its-index
+    final(nondust_htlcs)@.len() == old(nondust_htlcs)@.len(),
+    forall|k: int| 0 <= k < old(nondust_htlcs)@.len() ==> same_but_index(#[trigger] final(nondust_htlcs)@[k], old(nondust_htlcs)@[k])
+        && final(nondust_htlcs)@[k].transaction_output_index == Some(shifted(old(nondust_htlcs)@[k].transaction_output_index->Some_0, idx)),
+//@mutant htlc_indices_walked_from_the_low_end
+    .iter_mut() .rev() .map_while(
+//@with
+    .iter_mut() .map_while(
 //@end
 }
 }
